@@ -401,34 +401,40 @@ INLINE_RESOLVE = [
 ]
 
 
+def _choose_perm(eng, n, restrict=None):
+    perms = [pm for pm in itertools.permutations(range(n)) if restrict is None or restrict(pm)]
+    return perms[eng.choose(len(perms), "order in which the specifiers are written")]
+
+
 def register_priorities(reg):
     variants = [
-        # tag, number of normal specifiers, modifier?, final property?
+        # tag, number of normal specifiers, modifier?, final property?, how many normal specifiers may specify q
         ("3 specifiers", 3, False, False, 2),
         ("2 specifiers + modifying", 2, True, False, 1),
         ("1 specifier + modifying, final property", 1, True, True, 1),
     ]
     for tag, n, withm, fin, nq in variants:
         total = n + (1 if withm else 0)
-        for perm in itertools.permutations(range(total)):
-            ptag = "".join(map(str, perm))
-            key = f"{RESOLVE}[{tag}; order {ptag}]"
-            short = f"{SHORT}[{tag}; order {ptag}]"
-            reg.add(
-                C.Contract(
-                    RESOLVE,
-                    params=dict(cls=C.Const(None), specifiers=C.Const(None)),
-                    setup=setup_priorities(perm, n, withm, fin, q_specifiers=nq),
-                    post=post_priorities(f"{SHORT}[{tag}]"),
-                    raises=[C.Raises("SpecifierError", mode="may")],
-                    inline=INLINE_RESOLVE,
-                    bounded=True,
-                    note=f"bounded: {tag} over properties p (any specifier) and q (the first {nq} non-modifying specifier(s) and the modifying one) + defaults p, q, d{', final f' if fin else ''}; priorities symbolic integers; every admissible subset of properties per specifier; input order {ptag}",
-                    replay=replay_resolve,
-                    properties=("C06",),
-                ),
-                key=key,
-            )
+
+        def setup(I, env, n=n, withm=withm, fin=fin, nq=nq, total=total):
+            perm = _choose_perm(I.eng, total)
+            setup_priorities(perm, n, withm, fin, q_specifiers=nq)(I, env)
+
+        reg.add(
+            C.Contract(
+                RESOLVE,
+                params=dict(cls=C.Const(None), specifiers=C.Const(None)),
+                setup=setup,
+                post=post_priorities(f"{SHORT}[{tag}]"),
+                raises=[C.Raises("SpecifierError", mode="may")],
+                inline=INLINE_RESOLVE,
+                bounded=True,
+                note=f"bounded: {tag} over properties p (any specifier) and q (the first {nq} non-modifying specifier(s) and the modifying one) + defaults p, q, d{', final f' if fin else ''}; priorities symbolic integers; every admissible subset of properties per specifier; EVERY permutation of the input list",
+                replay=replay_resolve,
+                properties=("C06",),
+            ),
+            key=f"{RESOLVE}[{tag}]",
+        )
 
 
 # =================================================================================================
@@ -451,9 +457,10 @@ def _subset(eng, cands, label):
     return tuple(c for i, c in enumerate(cands) if (k >> i) & 1)
 
 
-def setup_dependencies(perm):
+def setup_dependencies(restrict):
     def setup(I, env):
         eng = I.eng
+        perm = _choose_perm(eng, len(DEP_WORLD), restrict)
         w = World()
         for n, (prios, mod, modifiable, cands) in DEP_WORLD.items():
             w.specs.append(SpecModel(n, prios, deps=_subset(eng, cands, f"dependencies of {n}"), modifying=mod, modifiable=modifiable))
@@ -474,8 +481,12 @@ def setup_dependencies(perm):
 
 def register_dependencies(reg):
     tag = "dependency graphs"
-    for perm in itertools.permutations(range(len(DEP_WORLD))):
-        ptag = "".join(map(str, perm))
+    m_index = list(DEP_WORLD).index("m")
+    halves = [
+        ("modifying specifier written first or second", lambda pm: pm.index(m_index) < 2),
+        ("modifying specifier written third or last", lambda pm: pm.index(m_index) >= 2),
+    ]
+    for htag, restrict in halves:
 
         def post(I, env, outcome):
             check_outcome(I, env.vars["_world"], outcome, f"{SHORT}[{tag}]", with_graph=True)
@@ -484,16 +495,16 @@ def register_dependencies(reg):
             C.Contract(
                 RESOLVE,
                 params=dict(cls=C.Const(None), specifiers=C.Const(None)),
-                setup=setup_dependencies(perm),
+                setup=setup_dependencies(restrict),
                 post=post,
                 raises=[C.Raises("SpecifierError", mode="may")],
                 inline=INLINE_RESOLVE,
                 bounded=True,
-                note=f"bounded: specifiers a, b, c and modifying m with fixed priorities, properties p q r d (+ unprovided z); every subset of the candidate dependencies {dict((n, v[3]) for n, v in DEP_WORLD.items())} ; the default of d depends on p; input order {ptag}",
+                note=f"bounded: specifiers a, b, c and modifying m with fixed priorities, properties p q r d (+ unprovided z); every subset of the candidate dependencies {dict((n, v[3]) for n, v in DEP_WORLD.items())}; the default of d depends on p; every permutation of the input list with the {htag} (the two instances together cover all 24)",
                 replay=replay_resolve,
                 properties=("C06",),
             ),
-            key=f"{RESOLVE}[{tag}; order {ptag}]",
+            key=f"{RESOLVE}[{tag}; {htag}]",
         )
 
 
@@ -559,7 +570,7 @@ def register_relational(reg):
         return conc
 
     def setup(I, env):
-        setup_priorities(tuple(range(3)), 3, False, False, props=("p",))(I, env)
+        setup_priorities(tuple(range(3)), 3, False, False, props=("p",))(I, env)  # first order: as listed
         w = env.vars["_world"]
         I.eng.input_syms[-1] = ("world", C.Ghost(lambda eng, name, I: w, conc_world(w)), w)
 
@@ -1226,10 +1237,12 @@ def register_constructors(reg):
         mixin = class_model("Mixin", [], {"_scenic_properties": PDict([("x", _token("mixin.x"))])}, constructible=False)
         defs = {}
 
+        allowed = {"G": ("plain", "dynamic", "final"), "P": ("plain", "additive", "final", "dynamic+final"), "C": ATTRS}
+
         def scenic_props(cname):
             props = []
             if eng.choose(2, f"{cname} defines x?") == 1:
-                attr = ATTRS[eng.choose(len(ATTRS), f"attributes of x in {cname}")]
+                attr = allowed[cname][eng.choose(len(allowed[cname]), f"attributes of x in {cname}")]
                 d = make_default(eng, f"{cname}.x", attr, (), log)
                 defs[cname] = d
                 props.append(("x", d))
@@ -1314,7 +1327,7 @@ def register_constructors(reg):
         inline=INLINE_CTORS,
         env=dict(CTOR_ENV, issubclass=BuiltinFn("issubclass", _issubclass), super=BuiltinFn("super", _super2), property=property),
         bounded=True,
-        note="bounded: hierarchy C < P < G < Constructible (+ a non-Scenic mixin with a same-named attribute); property x defined in any subset of {C, P, G} as plain / additive / dynamic / final / dynamic+final; y, z plain values; classes are heap models (issubclass / super(cls, cls) / cls._resolveSpecifiers(()) modelled in the contract)",
+        note="bounded: hierarchy C < P < G < Constructible (+ a non-Scenic mixin with a same-named attribute); property x defined in any subset of {C, P, G} (C: plain / additive / dynamic / final / dynamic+final, P: plain / additive / final / dynamic+final, G: plain / dynamic / final); y, z plain values; classes are heap models (issubclass / super(cls, cls) / cls._resolveSpecifiers(()) modelled in the contract)",
         replay=replay_init_subclass,
         properties=("C06",),
     )
@@ -1680,19 +1693,29 @@ def register_reference(reg):
         err = None
     except Exception as e:  # missing / unreadable reference: every case fails its obligation below
         doc, err = {}, f"{type(e).__name__}: {e}"
-    seen = {}
-    for idx, (title, ctor, build, oriented, descr) in enumerate(reference_cases()):
+    allcases = reference_cases()
+    by_ctor = {}
+    for idx, case in enumerate(allcases):
+        by_ctor.setdefault(case[1], []).append((idx, case))
+    for ctor, cases in by_ctor.items():
         target = f"{VN}:{ctor}"
-        k = seen[ctor] = seen.get(ctor, 0) + 1
-        name = f"veneer.{ctor}[{descr}]"
+        argnames = []
+        for _, case in cases:
+            for a in case[2]():
+                if a not in argnames:
+                    argnames.append(a)
 
-        def setup(I, env, build=build, idx=idx):
-            for a, v in build().items():
+        def setup(I, env, cases=cases):
+            idx, case = cases[I.eng.choose(len(cases), "argument kinds")]
+            for a, v in case[2]().items():
                 env.vars[a] = v
+            env.vars["_case"] = (idx, case)
             I.eng.input_syms.append(("case", C.Const(None), idx))
 
-        def post(I, env, outcome, title=title, oriented=oriented, name=name, ctor=ctor):
+        def post(I, env, outcome, ctor=ctor):
             eng = I.eng
+            idx, (title, _, build, oriented, descr) = env.vars["_case"]
+            name = f"veneer.{ctor}[{descr}]"
             eng.check(f"{name}#reference.section_found_in_specifiers_rst", title in doc, detail=err or title)
             if title not in doc:
                 return
@@ -1715,19 +1738,18 @@ def register_reference(reg):
             is_mod = getattr(sp.cls, "name", "") == "ModifyingSpecifier"
             eng.check(f"{name}#reference.modifying_exactly_where_the_reference_says_modifies", gmods == wmods and is_mod == bool(wmods), detail=f"code {sorted(gmods)} / reference {sorted(wmods)}")
 
-        params = {a: C.Const(None) for a in build()}
         reg.add(
             C.Contract(
                 target,
-                params=params,
+                params={a: C.Const(None) for a in argnames},
                 setup=setup,
                 post=post,
                 inline_all=True,
-                note=f"argument kinds abstract: {descr}; internal properties (leading underscore) are not part of the reference",
+                note="argument kinds abstract: " + "; ".join(case[4] for _, case in cases) + ". Internal properties (leading underscore) are not part of the reference",
                 replay=replay_reference,
                 properties=("C06",),
             ),
-            key=f"{target}[{descr}]",
+            key=f"{target}[reference table]",
         )
 
 
